@@ -736,4 +736,22 @@ Proof.
   - intros d Hd. unfold ex_geom. cbn [g_nye g_ny]. apply (cyc_lt O L). lia.
 Qed.
 
+(* the theorems applied to the example: rows 0 and 2 of the returned flux footprint coincide, and the first moment
+   of rows 0..2 about the tower row 1 vanishes *)
+Lemma axis_example_applied :
+  (forall i, (i < 3)%nat ->
+     get3 O (field O ex_args ex_geom snd (table O ex_args ex_geom)) 0 0 i
+     = get3 O (field O ex_args ex_geom snd (table O ex_args ex_geom)) 0 2 i) /\
+  wsum 1 (fun d => ofZ d * csum O (map (fun i =>
+     get3 O (field O ex_args ex_geom snd (table O ex_args ex_geom)) 0 (cyc 4 1 d) i) [0; 1; 2]%nat)) = 0.
+Proof.
+  destruct axis_example as (Hg & Hfp & Hv & Hdy & Htow & Hex & Hm02 & _ & Hk & Hwin).
+  split.
+  - intros i Hi. apply (axis_y_cells_full ex_args ex_geom snd 0 0 2 i 2); try assumption; try reflexivity.
+    + cbn. lia.
+    + cbn. lia.
+  - apply (centroid_rows ex_args ex_geom snd 0 1 1 [0; 1; 2]%nat); try assumption; try reflexivity.
+    intros i [<-|[<-|[<-|[]]]]; cbn; lia.
+Qed.
+
 End C08A.
